@@ -356,8 +356,9 @@ def main(argv):
         "wall_s": round(time.time() - t0, 2),
         "violations": len(lines),
     }
-    os.makedirs(os.path.join(ROOT, "evidence"), exist_ok=True)
-    with open(os.path.join(ROOT, "evidence", f"{prop}.json"), "w") as f:
+    ev_dir = os.environ.get("PVC_EVIDENCE_DIR") or os.path.join(ROOT, "evidence")  # maintenance runs on modified trees write elsewhere
+    os.makedirs(ev_dir, exist_ok=True)
+    with open(os.path.join(ev_dir, f"{prop}.json"), "w") as f:
         json.dump(ev, f, indent=1, default=str)
     print(f"{prop} {tier}: level={level} obligations={n_ob} discharged={n_dis} bounded={n_bounded_dis}/{n_bounded_ob} "
           f"undecided={len(undecided)} known={len(known_matched)} violations={len(lines)} wall={ev['wall_s']}s")
